@@ -452,6 +452,28 @@ def w_ipv6_extension_header_checksum():
     return "FAILS with -c the export of a capture whose IPv6 packets carry a hop-by-hop header (all checksums valid) shrinks from %d to %d bytes" % (len(out0 or b""), len(out or b""))
 
 
+def w_capture_2039_tsresol7():
+    impl, tlsgen, table, _ = env()
+    from ref import synth
+    s = tls12(random.Random(13), tlsgen, table)
+    # instants in 2039 (seconds >= 2^31) at which rounding the 100 ns tick count to a float first moves the result by a microsecond
+    def delicate(m):
+        return round(((m * 10) / 1e7) * 1e6) != m
+    us, t = [], 2179730200062399
+    for p in s.packets:
+        while not delicate(t):
+            t += 1
+        us.append((t, p["frame"]))
+        t += 1000
+    st6, out6 = impl.run(synth.pcapng(us, tsresol=6), s.keylog, [])
+    st7, out7 = impl.run(synth.pcapng([(t * 10, f) for t, f in us], tsresol=7), s.keylog, [])
+    if st6 == st7 == "ok" and out6 == out7 and len(out6) > 100:
+        return "ok the same packets with if_tsresol 6 and 7 give the same export (%d bytes)" % len(out6)
+    from ref import readback
+    d = [(a[0], b[0]) for a, b in zip(readback.read_pcapng(out6), readback.read_pcapng(out7)) if a[0] != b[0]] if st6 == st7 == "ok" else []
+    return "FAILS the same packets, captured in 2039, exported from a 100 ns-resolution pcapng differ from the microsecond-resolution export: %d time stamps differ, first %s" % (len(d), d[:1])
+
+
 def w_ssl3_sha384_server_hello():
     impl, tlsgen, table, _ = env()
     from ref import capgen, readback, synth
@@ -528,6 +550,7 @@ W = {  # name: (property, commit, tag, function, one-line description)
     "tls-handshake-header-cut": ("C01", "d053156", "handshake-header-cut", w_tls_handshake_header_cut, "TLS 1.0 Certificate whose 4-byte message header is cut by a record boundary after 2 bytes: the next record started with 0x02 and was taken for a ServerHello, nothing exported"),
     "non-ascii-comment-in-dsb": ("C09", "e751caa", "keylog-non-ascii", w_non_ascii_comment, "a decryption secrets block (strict ASCII decode) or key-log file (locale codec) with non-ASCII bytes in a comment line aborted the run with UnicodeDecodeError"),
     "ipv6-extension-header-checksum": ("C11", "ef93a67", "ipv6-ext-pseudo-header", w_ipv6_extension_header_checksum, "with -c every IPv6 TCP/UDP packet that carries an extension header was ignored although its checksum is correct (ip.nxt, the first extension header's type, used in the pseudo-header)"),
+    "capture-2039-tsresol7": ("C12", "8eef5f1", "float-divisor-after-2038", w_capture_2039_tsresol7, "a capture made after 2038-01-19 (seconds >= 2^31) with if_tsresol finer than 10^-6 (e.g. 100 ns): the tick count was rounded to a float before the division, the exported time stamps moved by one microsecond against the export of the same packets from a microsecond-resolution file"),
     "ssl3-sha384-server-hello": ("C03", "7a6c0b7", "key-derivation-unprotected", w_ssl3_sha384_server_hello, "two bytes of a ServerHello overwritten (record version 0x0300) with a SHA-384 suite: the SSL 3.0 key block needs more than ten PRF rounds, IndexError in key derivation aborted the run"),
     "legacy-nanosecond-pcap": ("C12", "7467fb4", "legacy-ns", w_legacy_nano, "legacy pcap with nanosecond magic: TypeError in the writer"),
 }
